@@ -46,6 +46,48 @@ def gen_cases(ctx):
     return cases
 
 
+def product_stage(ctx):
+    """DIRECT TEST ON THE IMPLEMENTATION (Props/C17.v C17_product is the model-side statement): for pairs a, b of Dual2 on
+    every pair of stored layouts of the 3-letter alphabet and a requested list, row i of the product rule applied to the
+    manifolds, gradient1(M(a)_i * b + a * M(b)_i), equals row i of gradient2(a * b) - the manifold numbers carry the
+    REQUESTED names in the requested order, so the products re-align variable lists of different orders and lengths"""
+    rng = ctx.rng
+    th = ctx.tier == "thorough"
+    stored = c03.layouts(["x", "y", "z"])
+    req = [l for l in c03.layouts(["x", "y", "z", "w"]) if l]
+    cases = []
+    for la in stored:
+        for lb in stored:
+            for _ in range(3 if th else 1):
+                ws = rng.choice(req)
+                cases.append((c03.mk(rng, 2, la), c03.mk(rng, 2, lb), ws))
+    enc = [[26] + dg.enc_number(a)[1:] + dg.enc_number(b)[1:] + dg.enc_names(ws) for a, b, ws in cases]
+    impl = run_harness("dual", ["c " + " ".join(str(x) for x in e) for e in enc])
+    for (a, b, ws), e, o in zip(cases, enc, impl):
+        ctx.evaluations += 1
+        ctx.count("product rule on manifolds (direct test)")
+        ctx.nontriv(("prod", tuple(e)))
+        what = None
+        n = len(ws)
+        if o[:1] != [0] or len(o) != 2 + n * n + 2 + n * n or o[1] != n or o[2 + n * n:4 + n * n] != [n, n]:
+            what = "unexpected output %s" % o[:12]
+        else:
+            L = [b2f(x) for x in o[2:2 + n * n]]
+            R = [b2f(x) for x in o[4 + n * n:]]
+            scale = max([abs(x) for x in L + R] + [1.0])
+            for k, (x, y) in enumerate(zip(L, R)):
+                if not fclose(x, y, rtol=1e-9, atol=1e-9 * scale):
+                    what = "entry (%s, %s): product rule on manifolds gives %r, gradient2 of the product gives %r" % (
+                        ws[k // n], ws[k % n], x, y)
+                    break
+        if what:
+            ctx.violation("the product rule applied to manifolds does not reproduce the second derivatives of a product: a = %s, "
+                          "b = %s, names %s: %s" % (a, b, ws, what),
+                          {"case": e, "entry": "product rule", "direct_test": True, "a": list(a), "b": list(b), "requested": ws,
+                           "implementation": o[:80],
+                           "harness_cmd": "echo 'c %s' | harness/target/release/rlharness dual" % " ".join(str(t) for t in e)})
+
+
 def run(ctx):
     ctx.rule = ("EXHAUSTIVE: every stored order on a 3-letter alphabet (16 lists) x every requested list of distinct names on a 4-letter "
                 "alphabet (65 lists: any order, subsets, supersets, absent names, the empty list, requested = stored) for gradient1 on Dual "
@@ -84,6 +126,7 @@ def run(ctx):
                  "absent_names": sorted(set(absent)), "has_absent_name": bool(absent),
                  "implementation": dg.plain(da), "model": dg.plain(db),
                  "harness_cmd": "echo 'c %s' | harness/target/release/rlharness dual" % " ".join(str(t) for t in e)})
+    product_stage(ctx)
     for c in cases[200:204]:
         ctx.sample(describe(*c))
     ctx.exhaustive = True
@@ -95,6 +138,13 @@ def replay(ctx, rp):
     build_coq(["theories/Run/RunDual.vo"])
     c = rp["case"]
     a = run_harness("dual", ["c " + " ".join(str(x) for x in c)])[0]
+    if rp.get("entry") == "product rule":
+        n = a[1] if len(a) > 1 else 0
+        L, R = a[2:2 + n * n], a[4 + n * n:]
+        bad = a[:1] != [0] or any(not fclose(b2f(x), b2f(y), rtol=1e-9, atol=1e-9) for x, y in zip(L, R))
+        print("product rule on manifolds:", [b2f(x) for x in L], "gradient2 of the product:", [b2f(x) for x in R])
+        ctx.cleanup()
+        return 1 if bad else 0
     b = coq_eval("Run.RunDual", "runDual", [c], ctx.work)[0]
     print("implementation", a, "\nmodel", b)
     ctx.cleanup()
